@@ -6,6 +6,7 @@ import SymfcModel.Model.Inst
 import SymfcModel.Model.Tables
 import SymfcModel.Lemmas.Batch
 import SymfcModel.Lemmas.Chunk
+import SymfcModel.Lemmas.Design
 namespace Symfc.C11
 open Symfc
 
@@ -53,6 +54,14 @@ theorem coset_chunk_count_is_irrelevant {α} (add : α → α → α) (zero : α
     (hzero : ∀ a, add zero a = a) (n₁ n₂ : Nat) (h₁ : 1 ≤ n₁) (h₂ : 1 ≤ n₂) (mats : List α) :
     chunkedSum add zero n₁ mats = chunkedSum add zero n₂ mats :=
   chunkedSum_indep add zero hassoc hcomm hzero n₁ n₂ h₁ h₂ mats
+
+/-- C11.b on the model of the solvers themselves: the normal equations do not depend on the atom-batch size nor on the
+    snapshot batch size (any positive values, any solver combination). -/
+theorem normal_equations_independent_of_batch_sizes (c : Cell) (ods : List OrderData)
+    (hods : ∀ od ∈ ods, OrderOK c od) (us fs : List (Array Int)) (hfs : fs.length = us.length)
+    (a1 s1 a2 s2 : Nat) (h1 : 0 < a1) (h2 : 0 < s1) (h3 : 0 < a2) (h4 : 0 < s2) :
+    normalEqOp c ods us fs a1 s1 = normalEqOp c ods us fs a2 s2 :=
+  D3 c ods hods us fs hfs a1 s1 a2 s2 h1 h2 h3 h4
 
 /-- record of the current source: the FC3 reshape guards against a zero batch size, the FC2/FC4 reshapes do not
     (FC4: fewer than 36 stored entries ⇒ `ValueError`, a crash, never a wrong value) -/
